@@ -5,9 +5,9 @@ import ast
 import re
 
 from ..core import (AnalysisError, body_nodes, call_name, dotted, in_loop, is_self_attr, key_text,
-                    kwarg, names_in, params, parent, stmts_of, unparse)
+                    kwarg, local_defs, names_in, params, parent, stmts_of, unparse)
 from ..normal import inline_temps
-from ..pattern import P, pmatch
+from ..pattern import P, find, guards_of, pmatch
 from ..flow import check_errflow
 
 MPS = 'tenpy/networks/mps.py'
@@ -230,36 +230,87 @@ def check_bond_lists(prog, rep):
 
 def check_swap_sites(prog, rep):
     m = prog.module(MPS)
-    f = m.func('MPS.swap_sites')
-    L_fam, R_fam = {'siteL', 'dL'}, {'siteR', 'dR'}
+    f = inline_temps(m.func('MPS.swap_sites'), keep=('siteL', 'siteR'))
+    pi = params(f)[1]
+    defs = local_defs(f)
+
+    def sides(expr, seen=None):
+        """{'L','R'}: which of the two sites (i -> L, i+1 -> R) the expression is built from"""
+        seen = seen if seen is not None else set()
+        out = set()
+        for x in ast.walk(expr):
+            e = pmatch('self.get_site($$k)', x) or pmatch('self.sites[$$k]', x) or \
+                pmatch('self.sites[self._to_valid_site_index($$k)]', x)
+            if e:
+                k = unparse(e['$$k'])
+                if k == pi:
+                    out.add('L')
+                elif k in ('%s + 1' % pi, '1 + %s' % pi):
+                    out.add('R')
+            if isinstance(x, ast.Name) and x.id in defs and x.id not in seen:
+                seen.add(x.id)
+                for v in defs[x.id]:
+                    if isinstance(v, ast.Tuple):
+                        continue
+                    out |= sides(v, seen)
+        # tuple unpacking `siteL, siteR = (get_site(i), get_site(i+1))`
+        for st in stmts_of(f):
+            if isinstance(st, ast.Assign) and isinstance(st.targets[0], ast.Tuple) and \
+                    isinstance(st.value, ast.Tuple):
+                for t, v in zip(st.targets[0].elts, st.value.elts):
+                    if isinstance(t, ast.Name) and t.id in names_in(expr) and t.id not in seen:
+                        seen.add(t.id)
+                        out |= sides(v, seen)
+        return out
+
     n = 0
     for c in body_nodes(f):
         if isinstance(c, ast.Call) and dotted(c.func) == 'np.outer' and len(c.args) == 2:
             n += 1
             a, b = c.args
-            rep.instance('MPS-sided', {'function': 'MPS.swap_sites', 'outer': unparse(c)})
-            na, nb = names_in(a) & (L_fam | R_fam), names_in(b) & (L_fam | R_fam)
-            if (na and not na <= L_fam) or (nb and not nb <= R_fam):
+            rep.instance('MPS-sided', {'function': 'MPS.swap_sites', 'outer': unparse(c)[:80]})
+            na, nb = sides(a), sides(b)
+            if (na and na != {'L'}) or (nb and nb != {'R'}):
                 rep.violation('MPS-sided', m, 'MPS.swap_sites', 'outer-order:' + unparse(c)[:40],
                               '`%s`: the two-site basis is ordered (left site slow, right site '
                               'fast) — the diagonal is reshaped to [dL, dR, dL, dR] — so the '
                               'first factor must belong to the left site and the second to the '
                               'right one: fermionic signs of unequal site types are scrambled' %
-                              unparse(c), c.lineno)
+                              unparse(c)[:120], c.lineno)
     if n < 2:
         raise AnalysisError('MPS.swap_sites: parity outer products not found')
-    src = unparse(f)
     rep.instance('MPS-sided', {'function': 'MPS.swap_sites', 'check': 'layout'})
-    if 'reshape([dL, dR, dL, dR])' not in src or \
-            '[siteL.leg, siteR.leg, siteL.leg.conj(), siteR.leg.conj()]' not in src:
+    ok = False
+    for c in body_nodes(f):
+        e = pmatch('$$x.reshape([$$a, $$b, $$c, $$d])', c)
+        if e and [sides(e[k]) for k in ('$$a', '$$b', '$$c', '$$d')] == [{'L'}, {'R'}, {'L'}, {'R'}]:
+            for l in body_nodes(f):
+                if isinstance(l, ast.List) and len(l.elts) == 4 and all(
+                        '.leg' in unparse(x) for x in l.elts):
+                    sd = [sides(x) for x in l.elts]
+                    cj = ['.conj()' in unparse(x) for x in l.elts]
+                    if sd == [{'L'}, {'R'}, {'L'}, {'R'}] and cj == [False, False, True, True]:
+                        ok = True
+    if not ok:
         rep.violation('MPS-sided', m, 'MPS.swap_sites', 'layout',
                       'the swap operator must be built as diag.reshape([dL, dR, dL, dR]) with legs '
                       '[L, R, L*, R*]', f.lineno)
     rep.instance('MPS-sided', {'function': 'MPS.swap_sites', 'check': 'sites exchanged'})
-    if 'self.sites[self._to_valid_site_index(i)] = siteR' not in src or \
-            'self.sites[self._to_valid_site_index(i + 1)] = siteL' not in src:
+    got = {}
+    for st in stmts_of(f):
+        e = pmatch('self.sites[self._to_valid_site_index($$k)] = $$v', st) or \
+            pmatch('self.sites[$$k] = $$v', st)
+        if e:
+            got[unparse(e['$$k'])] = sides(e['$$v'])
+    tup = find('self.sites[$$a], self.sites[$$b] = $$x, $$y', f)
+    for n2, e in tup:
+        for kk, vv in (('$$a', '$$x'), ('$$b', '$$y')):
+            k = pmatch('self._to_valid_site_index($$k)', e[kk])
+            got[unparse(k['$$k']) if k else unparse(e[kk])] = sides(e[vv])
+    if got.get(pi) != {'R'} or got.get('%s + 1' % pi) != {'L'}:
         rep.violation('MPS-sided', m, 'MPS.swap_sites', 'sites-not-exchanged',
-                      'after the swap site i must hold siteR and site i+1 siteL', f.lineno)
+                      'after the swap site i must hold siteR and site i+1 siteL (found %s)' % got,
+                      f.lineno)
     # spatial_inversion: form pairs swapped, labels swapped, all lists reversed
     g = m.func('MPS.spatial_inversion')
     srcg = unparse(g)
